@@ -21,7 +21,8 @@ EXPLANATION = (
     "C16-c); (e) no axis mismatch or index-space event anywhere on the fit / predict path of any estimator, for int and "
     "None batch sizes and every GEMINI registry name. Not decided: termination and finite arithmetic.")
 ASSUMPTIONS = ["installed package sources/stubs under /venv describe the API that runs", "numpy shape semantics of gcverif/e3_numpy.py"]
-ADOPT = [("C17", ["C17-e"], "an overflowing exponential turns predict_proba rows into NaN, which are not probability vectors"),
+ADOPT = [("C12", ["C12-a"], "a hyper-parameter that the constructor drops is silently replaced by the parent's default"),
+         ("C17", ["C17-e"], "an overflowing exponential turns predict_proba rows into NaN, which are not probability vectors"),
          ("C15", ["C15-b"], "Douglas probabilities are products of the soft bin memberships: they must be probability vectors")]
 
 
